@@ -95,8 +95,70 @@ def voxelizeOracle (fm : Nat) (convex : Bool) (pts : List (V3 Float)) (tris : Li
     let inside (p : V3 Rat) : Bool := faces.all fun (pa, n) => n.dot (p.sub pa) ≤ 0
     let badInner := voxels.filter fun v => !v.surf && !inside (centre v.coords)
     match badInner with
-    | v :: _ => s!"fail interior-voxel-centre-outside-solid ({v.i},{v.j},{v.k})"
-    | [] => "pass"
+    | v :: _ => s!"fail interior-voxel-centre-outside-solid{if fm = 2 then "[detect-cavities]" else ""} ({v.i},{v.j},{v.k})"
+    | [] =>
+      -- completeness: every grid cell whose centre is inside the convex solid is present (surface or interior)
+      let ni := voxels.foldl (fun m v => max m (v.i + 1)) 0
+      let nj := voxels.foldl (fun m v => max m (v.j + 1)) 0
+      let nk := voxels.foldl (fun m v => max m (v.k + 1)) 0
+      let missing := (List.range ni).flatMap fun i => (List.range nj).flatMap fun j => (List.range nk).filterMap fun k =>
+        if !all.contains (i, j, k) && inside (centre (i, j, k)) then some (i, j, k) else none
+      let tag := if fm = 2 then "[detect-cavities]" else ""
+      match missing with
+      | (i, j, k) :: _ => s!"fail cell-with-centre-inside-solid-missing{tag} ({i},{j},{k})"
+      | [] => "pass"
+
+
+/-- exact even–odd membership of a point in a closed polyline (edges as index pairs) -/
+def evenOdd (P : Array (V2 Rat)) (edges : List (Nat × Nat)) (p : V2 Rat) : Bool :=
+  let crossings := edges.filter fun (a, b) =>
+    match P[a]?, P[b]? with
+    | some pa, some pb =>
+      if decide (pa.y ≤ p.y) != decide (pb.y ≤ p.y) then
+        -- x coordinate of the edge at height p.y is to the right of p
+        let t := (p.y - pa.y) / (pb.y - pa.y)
+        decide (p.x < pa.x + t * (pb.x - pa.x))
+      else false
+    | _, _ => false
+  crossings.length % 2 == 1
+
+def voxelize2Oracle (fm : Nat) (pts : List (V2 Float)) (edges : List (Nat × Nat))
+    (origin : V2 Float) (scale : Float) (voxels : List (Nat × Nat × Bool)) : String :=
+  let O := q2 origin; let S := q scale
+  if S ≤ 0 then "fail nonpositive-scale" else
+  let P := pts.toArray.map q2
+  let surf : Std.HashSet (Nat × Nat) := Std.HashSet.ofList ((voxels.filter (·.2.2)).map fun v => (v.1, v.2.1))
+  let all : Std.HashSet (Nat × Nat) := Std.HashSet.ofList (voxels.map fun v => (v.1, v.2.1))
+  if all.size != voxels.length then "fail duplicate-voxels" else
+  let tol := S / 1000000
+  let inCell2 (c : Nat × Nat) (p : V2 Rat) : Bool :=
+    rabs (p.x - (O.x + (c.1 : Rat) * S)) ≤ S / 2 + tol && rabs (p.y - (O.y + (c.2 : Rat) * S)) ≤ S / 2 + tol
+  let cand (p : V2 Rat) : List (Nat × Nat) :=
+    let f (x o : Rat) : List Nat := let r := ((x - o) / S + 1/2).floor
+      [r - 1, r, r + 1].filterMap fun z => if z < 0 then none else some z.toNat
+    (f p.x O.x).flatMap fun i => (f p.y O.y).map fun j => (i, j)
+  let samples := edges.flatMap fun (a, b) =>
+    match P[a]?, P[b]? with
+    | some pa, some pb => (List.range 17).map fun (k : Nat) => pa.add ((pb.sub pa).smul ((k : Rat) / 16))
+    | _, _ => []
+  match samples.filter (fun p => !((cand p).any fun c => surf.contains c && inCell2 c p)) with
+  | p :: _ => s!"fail input-point-not-in-a-surface-voxel ({p.x},{p.y})"
+  | [] =>
+    if fm = 0 then "pass" else
+    let centre (c : Nat × Nat) : V2 Rat := ⟨O.x + (c.1 : Rat) * S, O.y + (c.2 : Rat) * S⟩
+    -- flood fill: interior (non-surface) voxels have their centre inside the polygon …
+    match voxels.filter (fun v => !v.2.2 && !evenOdd P edges (centre (v.1, v.2.1))) with
+    | v :: _ => s!"fail interior-voxel-centre-outside-polygon{if fm = 2 then "[detect-cavities]" else ""} ({v.1},{v.2.1})"
+    | [] =>
+      -- … and every grid cell whose centre is inside the polygon is present (surface or interior)
+      let ni := voxels.foldl (fun m v => max m (v.1 + 1)) 0
+      let nj := voxels.foldl (fun m v => max m (v.2.1 + 1)) 0
+      let missing := (List.range ni).flatMap fun i => (List.range nj).filterMap fun j =>
+        if !all.contains (i, j) && evenOdd P edges (centre (i, j)) then some (i, j) else none
+      let tag := if fm = 2 then "[detect-cavities]" else ""
+      match missing with
+      | (i, j) :: _ => s!"fail cell-with-centre-inside-polygon-missing{tag} ({i},{j})"
+      | [] => "pass"
 
 def hullOracle (origin : V3 Float) (scale : Float) (parts : List (List Voxel))
     (hulls : List (List (V3 Float) × List (Nat × Nat × Nat))) : String :=
@@ -149,6 +211,18 @@ def handler (fn : String) : Option Handler :=
           | "panic" :: _ => "fail panic"
           | _ => match run (do let org ← pv3; let sc ← pfo; let vs ← pvoxels; pure (org, sc, vs)) o with
             | some (org, sc, vs) => voxelizeOracle fm cv pts tris org sc vs
+            | none => "fail unparsable-output")
+        | none => "skip bad-args" }
+  | "voxelize2" => some {
+      model := fun _ => some "-"
+      oracle := fun a o => match run (do
+          let _res ← pnat; let fm ← pnat; let pts ← plist pv2
+          let edges ← plist (do let a ← pnat; let b ← pnat; pure (a, b)); pure (fm, pts, edges)) a with
+        | some (fm, pts, edges) => (match o with
+          | "panic" :: _ => "fail panic"
+          | _ => match run (do let org ← pv2; let sc ← pfo
+                                 let vs ← plist (do let i ← pnat; let j ← pnat; let s ← pbool; pure (i, j, s)); pure (org, sc, vs)) o with
+            | some (org, sc, vs) => voxelize2Oracle fm pts edges org sc vs
             | none => "fail unparsable-output")
         | none => "skip bad-args" }
   | "hulls3" => some {
